@@ -25,6 +25,7 @@ def main():
 
     mod = importlib.import_module(f"gtmon.props.{a.prop.lower()}")
     rec = core.Rec(a.prop)
+    rec.classifier = getattr(mod, "classify", None)
     hooks.install(monitors=getattr(mod, "MONITORS", ("WF",)), rec=rec)
     cells = json.load(open(a.cells))
     done, skipped, errors = 0, 0, []
